@@ -11,8 +11,9 @@ VNAMES = "ABCD"
 
 
 class Field:
-    def __init__(self, name, ty, combo):
+    def __init__(self, name, ty, combo, idk=()):
         self.name, self.ty, self.combo = name, ty, combo   # name None => tuple field
+        self.idk = frozenset(idk)       # attributes whose key is written as the identity `key = $` (still a key: it takes part in the precedence)
 
 
 class Variant:
@@ -34,11 +35,13 @@ class TypeDef:
         vs = []
         for v in self.variants:
             vs.append("%s%s[%s]" % (v.name, {"unit": "", "tuple": "()", "named": "{}"}[v.kind],
-                                    ", ".join("%s:%s" % (f.ty, R.combo_name(f.combo)) for f in v.fields)))
+                                    ", ".join("%s:%s%s" % (f.ty, R.combo_name(f.combo), ("{key=$ on %s}" % ",".join(sorted(f.idk))) if f.idk else "") for f in v.fields)))
         return "%s %s derive=%s entry=%s %s" % ("enum" if self.is_enum else "struct", " | ".join(vs), "+".join(self.derived), self.entry, "generic" if self.generic else "")
 
 
-def key_name(td, a):
+def key_name(td, a, f=None):
+    if f is not None and a in f.idk:
+        return "k_id"
     return ("k_" + a) if td.keys == "distinct" else "ck"
 
 
@@ -50,7 +53,14 @@ def by_name(td, a):
 
 def field_attrs(td, f):
     owned = R.parsed_attrs(td.derived)
-    return R.attr_text(f.combo, key_expr=lambda a: "%s(&$)" % key_name(td, a), by_expr=lambda a: by_name(td, a), only=owned)
+    t = R.attr_text(f.combo, key_expr=lambda a: "$" if a in f.idk else "%s(&$)" % key_name(td, a), by_expr=lambda a: by_name(td, a), only=owned)
+    if t and not td.generic:
+        # bound(..) arguments only concern the where-clause: on a non-generic item they must not change what is compared (deterministic choice)
+        import zlib
+        h = zlib.crc32((t + str(f.name) + f.ty).encode())
+        if h % 6 == 0:
+            t = t.replace(")]", ", bound(..))]" if h % 12 == 0 else ", bound())]", 1)
+    return t
 
 
 def ty_decl(td, ty):
@@ -148,7 +158,7 @@ def mk_text(td):
     return "impl Mk for %s { fn mk<S: Src>(s: &mut S) -> Self { %s } }\n" % (T, ctor(td.variants[0]))
 
 
-def field_cmp_expr(td, trait, c, a, b):
+def field_cmp_expr(td, trait, c, a, b, f=None):
     """reference comparison of one field for `trait` (documented precedence, reverse), a/b are `&FieldTy` expressions"""
     sk = R.sel_kind(c, trait)
     if trait == "PartialEq":
@@ -156,7 +166,7 @@ def field_cmp_expr(td, trait, c, a, b):
             return "(*%s == *%s)" % (a, b)
         at, kind = sk
         if kind == "key":
-            return "(%s(%s) == %s(%s))" % (key_name(td, at), a, key_name(td, at), b)
+            return "(%s(%s) == %s(%s))" % (key_name(td, at, f), a, key_name(td, at, f), b)
         f = by_name(td, at)
         if at in ("partial_eq", "eq"):
             return "%s(%s, %s)" % (f, a, b)
@@ -169,7 +179,7 @@ def field_cmp_expr(td, trait, c, a, b):
         else:
             at, kind = sk
             if kind == "key":
-                e = "PartialOrd::partial_cmp(&%s(%s), &%s(%s))" % (key_name(td, at), a, key_name(td, at), b)
+                e = "PartialOrd::partial_cmp(&%s(%s), &%s(%s))" % (key_name(td, at, f), a, key_name(td, at, f), b)
             elif at == "partial_ord":
                 e = "%s(%s, %s)" % (by_name(td, at), a, b)
             else:
@@ -183,7 +193,7 @@ def field_cmp_expr(td, trait, c, a, b):
         else:
             at, kind = sk
             if kind == "key":
-                e = "Ord::cmp(&%s(%s), &%s(%s))" % (key_name(td, at), a, key_name(td, at), b)
+                e = "Ord::cmp(&%s(%s), &%s(%s))" % (key_name(td, at, f), a, key_name(td, at, f), b)
             else:
                 e = "%s(%s, %s)" % (by_name(td, at), a, b)
         if R.rev(c, trait):
@@ -192,13 +202,13 @@ def field_cmp_expr(td, trait, c, a, b):
     raise ValueError(trait)
 
 
-def field_feed_stmt(td, c, a):
+def field_feed_stmt(td, c, a, f=None):
     sk = R.sel_kind(c, "Hash")
     if sk is None:
         return "Hash::hash(%s, h);" % a
     at, kind = sk
     if kind == "key":
-        return "Hash::hash(&%s(%s), h);" % (key_name(td, at), a)
+        return "Hash::hash(&%s(%s), h);" % (key_name(td, at, f), a)
     return "%s(%s, h);" % (by_name(td, at), a)
 
 
@@ -216,7 +226,7 @@ def ref_fn(td, trait):
         for i, f in enumerate(v.fields):
             if R.ign(f.combo, trait):
                 continue
-            e = field_cmp_expr(td, trait, f.combo, bname(v, f, i, "x"), bname(v, f, i, "y"))
+            e = field_cmp_expr(td, trait, f.combo, bname(v, f, i, "x"), bname(v, f, i, "y"), f)
             if trait == "PartialEq":
                 out.append("if !(%s) { return false; }" % e)
             else:
@@ -256,7 +266,7 @@ def ref_feed(td):
         for i, f in enumerate(v.fields):
             if R.ign(f.combo, "Hash"):
                 continue
-            out.append(field_feed_stmt(td, f.combo, bname(v, f, i, "x")))
+            out.append(field_feed_stmt(td, f.combo, bname(v, f, i, "x"), f))
         return " ".join(out)
     if td.is_enum:
         if not td.variants:
@@ -304,6 +314,9 @@ def build_prog(name, td, want=("PartialEq", "PartialOrd", "Ord", "Hash"), laws=F
     """Program module text + harness names."""
     T = inst(td)
     parts = [typedef_text(td), mk_text(td), ref_idx(td)]
+    # decoys on the derived type itself: generated code that refers to another derived method (`Self::..`, `self.cmp(..)`) must name the trait
+    parts.append("#[allow(dead_code)]\nimpl%s %s { pub fn eq<R_>(&self, _o: R_) -> bool { false } pub fn ne<R_>(&self, _o: R_) -> bool { false } pub fn partial_cmp<R_>(&self, _o: R_) -> Option<Ordering> { None } "
+                 "pub fn cmp<R_>(&self, _o: R_) -> Ordering { Ordering::Greater } pub fn hash<R_>(&self, _h: R_) {} }\n" % (("<T_: Kb>" if td.generic else ""), td.tname + ("<T_>" if td.generic else "")))
     man, man_refs = manual_supertraits(td)
     refs_needed = set(man_refs)
     harnesses, wrappers, proofs, replays = [], [], [], []
@@ -367,11 +380,11 @@ def law_harnesses(td):
         r.append('        "law_%s" => { %s let ok = lw_%s(%s); (ok, format!("%s law `%s` holds = {:?}", %s, ok)) }' % (name, mk, name, call, fmtv, text, ", ".join("xyz"[:nvals])))
         h.append("law_" + name)
     if "PartialEq" in D and "PartialOrd" in D:
-        add("eq_pcmp", 2, "(x == y) == (x.partial_cmp(y) == Some(Ordering::Equal))", "a == b iff partial_cmp == Some(Equal)")
+        add("eq_pcmp", 2, "(x == y) == (PartialOrd::partial_cmp(x, y) == Some(Ordering::Equal))", "a == b iff partial_cmp == Some(Equal)")
     if "PartialEq" in D and "Ord" in D:
-        add("eq_cmp", 2, "(x == y) == (x.cmp(y) == Ordering::Equal)", "a == b iff cmp == Equal")
+        add("eq_cmp", 2, "(x == y) == (Ord::cmp(x, y) == Ordering::Equal)", "a == b iff cmp == Equal")
     if "PartialOrd" in D and "Ord" in D:
-        add("pcmp_cmp", 2, "x.partial_cmp(y) == Some(x.cmp(y))", "partial_cmp == Some(cmp)")
+        add("pcmp_cmp", 2, "PartialOrd::partial_cmp(x, y) == Some(Ord::cmp(x, y))", "partial_cmp == Some(cmp)")
     if "PartialEq" in D and "Hash" in D:
         add("eq_hash", 2, "!(x == y) || { let mut h1 = Rec::new(); let mut h2 = Rec::new(); Hash::hash(x, &mut h1); Hash::hash(y, &mut h2); h1 == h2 }", "a == b implies equal feeds")
     if "Eq" in D:
@@ -380,8 +393,8 @@ def law_harnesses(td):
         add("eq_sym", 2, "(x == y) == (y == x)", "symmetric")
         add("eq_trans", 3, "!(x == y && y == z) || x == z", "transitive")
     if "Ord" in D:
-        add("cmp_swap", 2, "x.cmp(y) == y.cmp(x).reverse()", "cmp flips under swap")
-        add("cmp_trans", 3, "!(x.cmp(y) != Ordering::Greater && y.cmp(z) != Ordering::Greater) || x.cmp(z) != Ordering::Greater", "cmp transitive (<=)")
+        add("cmp_swap", 2, "Ord::cmp(x, y) == Ord::cmp(y, x).reverse()", "cmp flips under swap")
+        add("cmp_trans", 3, "!(Ord::cmp(x, y) != Ordering::Greater && Ord::cmp(y, z) != Ordering::Greater) || Ord::cmp(x, z) != Ordering::Greater", "cmp transitive (<=)")
     return w, p, r, h
 
 
@@ -436,7 +449,11 @@ def random_typedef(rng, derived, entry=None, keys="distinct", max_fields=4, allo
                 ty = "u8"
             if tymap:
                 ty = tymap(ty)
-            fs.append(Field(fnames[i] if kind == "named" else None, ty, c))
+            idk = ()
+            if keys == "distinct" and not generic and ty != PO_TYPE and tymap is None:
+                # identity keys `key = $`: the field itself as key; only on field types that implement every derived trait
+                idk = [a for a in R.OPS if any(x == "key" for x in c[a]) and rng.random() < 0.2]
+            fs.append(Field(fnames[i] if kind == "named" else None, ty, c, idk))
         return fs
     if is_enum:
         nv = rng.randint(1, 4)
